@@ -169,3 +169,26 @@ func anyTxMessage() ethtypes.Message {
 	}
 	return ethtypes.NewMessage(common.BytesToAddress(rt.BytesN("tx.from", 20)), to, rt.U64("tx.nonce"), big.NewInt(0), rt.U64("tx.gas"), big.NewInt(0), big.NewInt(0), big.NewInt(0), rt.Bytes("tx.data"), nil, false)
 }
+
+// VerifC04SendLeavesOtherPathsUntouched (S5, frame condition): sequences are per destination - a send to one destination
+// leaves the send counter and every commitment of any OTHER destination as they were (destination names are structured byte
+// strings of 2 bytes each, so "other" means different in at least one byte, letter case included).
+func VerifC04SendLeavesOtherPathsUntouched() {
+	w := newWorld(2)
+	var p types.Packet
+	rt.Fresh(&p, "packet")
+	p.DstChain = rt.StrN("dst", 2)
+	other := rt.StrN("otherDst", 2)
+	seq := rt.U64("otherSeq")
+	rt.Assume(other != p.DstChain)
+	w.assumeCounterWellFormed(p.SrcChain, p.DstChain)
+	w.assumeCounterWellFormed(p.SrcChain, other)
+	counter := w.k.GetNextSequenceSend(w.ctx, p.SrcChain, other)
+	commit := w.k.GetPacketCommitment(w.ctx, p.SrcChain, other, seq)
+	if w.k.SendPacket(w.ctx, &p) != nil {
+		return
+	}
+	rt.Reach("sent")
+	rt.Assert("S5-other-destination's-counter-untouched", w.k.GetNextSequenceSend(w.ctx, p.SrcChain, other) == counter)
+	rt.Assert("S5-other-destination's-commitments-untouched", rt.BytesEq(w.k.GetPacketCommitment(w.ctx, p.SrcChain, other, seq), commit))
+}
